@@ -41,7 +41,7 @@ ATOMS_SMALL = ["0", "-1", ":", "1:", "::-1", "...", "None", "[0, 0]", "array([[0
 def index_factory(quick, seed):
     L = lib()
     ag, np = L["ag"], L["np"]
-    shapes = [(3,), (2, 3), (2, 3, 2)] if quick else [(3,), (2,), (2, 3), (3, 2), (3, 3), (2, 3, 2), (2, 2, 3), (2, 2, 2, 3)]
+    shapes = [(), (3,), (2, 3), (2, 3, 2)] if quick else [(), (3,), (2,), (2, 3), (3, 2), (3, 3), (2, 3, 2), (2, 2, 3), (2, 2, 2, 3)]
     whole = ["x > 0.9", "onp.array(%s)", "()", "..., None", "None, ..."]
 
     def h(ch):
@@ -276,12 +276,81 @@ def mix_factory(quick, seed):
     return h, judge
 
 
-HARNESSES = {"index": index_factory, "mix": mix_factory}
+# rank-0 arrays: the accumulator of a 0-d value easily decays to a NumPy scalar
+TERMS0 = {
+    # name: (source, sparse?, first derivative, second derivative)
+    "S_unit3": ("a[()] ** 3", True, lambda a: 3 * a * a, lambda a: 6 * a),
+    "S_ell": ("a[...] * 2.0", True, lambda a: 2.0, lambda a: 0.0),
+    "S_new": ("a[None][0] * a[None][0]", True, lambda a: 2 * a, lambda a: 2.0),
+    "S_newell": ("a[..., None][-1]", True, lambda a: 1.0, lambda a: 0.0),
+    "D_sq": ("a * a", False, lambda a: 2 * a, lambda a: 2.0),
+    "D_sin": ("sin(a)", False, lambda a: onp.cos(a), lambda a: -onp.sin(a)),
+    "D_id": ("a", False, lambda a: 1.0, lambda a: 0.0),
+    "D_w": ("0.7 * a", False, lambda a: 0.7, lambda a: 0.0),
+}
+
+
+def mix0_factory(quick, seed):
+    L = lib()
+    ag, np = L["ag"], L["np"]
+    kmax = 3 if quick else 4
+    a0 = 0.4 + 0.01 * (seed % 9)
+    ns = dict(np=np, sin=np.sin)
+
+    def h(ch):
+        k = ch.choose("nuses", list(range(1, kmax + 1)))
+        names = [ch.choose("use%d" % i, sorted(TERMS0)) for i in range(k)]
+        assoc = ch.choose("assoc", ["left", "right"] if k > 2 else ["left"])
+        parts = ["(%s)" % TERMS0[t][0] for t in names]
+        if assoc == "left":
+            src = parts[0]
+            for p in parts[1:]:
+                src = "(%s + %s)" % (src, p)
+        else:
+            src = parts[-1]
+            for p in reversed(parts[:-1]):
+                src = "(%s + %s)" % (p, src)
+        f = eval("lambda a: " + src, ns)
+        x = onp.array(a0)
+        x.flags.writeable = False
+        obs = {}
+        with warnings.catch_warnings():
+            warnings.simplefilter("ignore")
+            for key, thunk in (("rev", lambda: ag.grad(f)(x)), ("fwd", lambda: ag.make_jvp(f)(x)(onp.array(1.0))[1]),
+                               ("rev2", lambda: ag.grad(ag.grad(f))(x)), ("fwdrev", lambda: ag.make_jvp(ag.grad(f))(x)(onp.array(1.0))[1])):
+                try:
+                    obs[key] = onp.asarray(thunk())
+                except Exception as e:
+                    obs[key] = "%s: %s" % (type(e).__name__, str(e)[:100])
+        d1 = sum(TERMS0[t][2](a0) for t in names)
+        d2 = sum(TERMS0[t][3](a0) for t in names)
+        return names, assoc, src, d1, d2, obs
+
+    def judge(ch, out):
+        names, assoc, src, d1, d2, obs = out
+        nsparse = sum(1 for t in names if TERMS0[t][1])
+        feats = dict(output="rank0", nsparse=nsparse, ndense=len(names) - nsparse, first=("sparse" if TERMS0[names[0]][1] else "dense"), assoc=assoc)
+        res = dict(v=[], nontrivial=bool(nsparse and nsparse < len(names)) or nsparse >= 2, outcome=(round(d1, 6), round(d2, 6)), counts={},
+                   sample=dict(choices=list(ch.choices), program="lambda a: " + src, sparse_uses=nsparse, dense_uses=len(names) - nsparse))
+        repro = "import autograd, autograd.numpy as np, numpy as onp\nsin=np.sin\nf = lambda a: %s\nx = onp.array(%r)\n" \
+                "print(autograd.grad(f)(x), autograd.grad(autograd.grad(f))(x))" % (src, a0)
+        for mode, want in (("rev", d1), ("fwd", d1), ("rev2", d2), ("fwdrev", d2)):
+            got = obs[mode]
+            if isinstance(got, str):
+                res["v"].append(violation(PROP, "mix0", "-", mode, "raised", feats, ch.choices, dict(program=src), got, None, repro))
+            elif got.shape != () or not onp.allclose(got, want, rtol=1e-12, atol=1e-12):
+                res["v"].append(violation(PROP, "mix0", "-", mode, "wrong-value", feats, ch.choices, dict(program=src), got.tolist(), want, repro))
+        return res
+
+    return h, judge
+
+
+HARNESSES = {"index": index_factory, "mix": mix_factory, "mix0": mix0_factory}
 
 
 def run(ctx):
     rep = Report("exploration")
-    run_harnesses(ctx, rep, __name__, ["index", "mix"], depth=3)
+    run_harnesses(ctx, rep, __name__, ["index", "mix", "mix0"], depth=3)
     lines = sorted(int(k.split(":")[1]) for k in rep.cov["per_harness"]["mix"]["counts"] if k.startswith("line:"))
     import dis
     core = lib()["core"]
